@@ -2,6 +2,8 @@ package main
 
 import (
 	"fmt"
+	"os"
+	"runtime/debug"
 	"go/token"
 	"go/types"
 
@@ -86,6 +88,9 @@ type State struct {
 	errs     []errRec
 	facts    map[string]bool
 	defs     map[string]string
+	local    map[string]bool     // fresh objects of this activation that have not escaped yet
+	owned    map[string][]string // local object -> local objects stored into its fields
+	aliases  map[string][]string // defined name -> fresh object names its body mentions
 }
 
 type dirtyObj struct {
@@ -114,6 +119,18 @@ func (st *State) clone() *State {
 	n.held = make(map[string]bool, len(st.held))
 	for k, v := range st.held {
 		n.held[k] = v
+	}
+	n.local = make(map[string]bool, len(st.local))
+	for k, v := range st.local {
+		n.local[k] = v
+	}
+	n.owned = make(map[string][]string, len(st.owned))
+	for k, v := range st.owned {
+		n.owned[k] = v
+	}
+	n.aliases = make(map[string][]string, len(st.aliases))
+	for k, v := range st.aliases {
+		n.aliases[k] = v
 	}
 	n.defs = make(map[string]string, len(st.defs))
 	for k, v := range st.defs {
@@ -178,6 +195,12 @@ func (fv *FV) def(st *State, prefix string, t Term) Term {
 		st.defs = map[string]string{}
 	}
 	st.defs[t.S] = n
+	if m := st.mentions(t.S); len(m) > 0 {
+		if st.aliases == nil {
+			st.aliases = map[string][]string{}
+		}
+		st.aliases[n] = m
+	}
 	return Term{S: n, Sort: t.Sort, T: t.T}
 }
 
@@ -258,14 +281,75 @@ func (fv *FV) assumeTypeInvIf(st *State, cond Term, ref Term, ptrT types.Type) {
 	fv.reportErrs(errs)
 }
 
-// checkTypeInvs: objects written in this activation must satisfy their invariant again
-// before control leaves (call, return, loop head).
+// mentions: the not-yet-escaped fresh objects a term refers to (directly or through defined names).
+func (st *State) mentions(s string) []string {
+	if len(st.local) == 0 {
+		return nil
+	}
+	var out []string
+	seen := map[string]bool{}
+	start := -1
+	flush := func(end int) {
+		if start < 0 {
+			return
+		}
+		tok := s[start:end]
+		start = -1
+		if st.local[tok] && !seen[tok] {
+			seen[tok] = true
+			out = append(out, tok)
+		}
+		for _, r := range st.aliases[tok] {
+			if st.local[r] && !seen[r] {
+				seen[r] = true
+				out = append(out, r)
+			}
+		}
+	}
+	for i := 0; i < len(s); i++ {
+		c := s[i]
+		if c == '(' || c == ')' || c == ' ' {
+			flush(i)
+		} else if start < 0 {
+			start = i
+		}
+	}
+	flush(len(s))
+	return out
+}
+
+// escape: the object (and everything stored into it while it was local) becomes visible to others.
+func (st *State) escape(name string) {
+	if !st.local[name] {
+		return
+	}
+	if os.Getenv("PV_DEBUG_ESCAPE") != "" {
+		fmt.Fprintf(os.Stderr, "escape %s at path %s\n%s\n", name, st.path, debug.Stack())
+	}
+	delete(st.local, name)
+	for _, c := range st.owned[name] {
+		st.escape(c)
+	}
+}
+
+func (st *State) escapeTerm(t Term) {
+	for _, r := range st.mentions(t.S) {
+		st.escape(r)
+	}
+}
+
+// checkTypeInvs: objects written in this activation that others can see must satisfy their
+// invariant again before control leaves (call, return, loop head). Fresh objects that have not
+// escaped are still under construction and are not checked (garbage at return is never checked).
 func (fv *FV) checkTypeInvs(st *State, pos token.Pos) {
 	if len(st.dirty) == 0 {
 		return
 	}
 	for _, k := range sortedKeys(st.dirty) {
 		d := st.dirty[k]
+		if st.local[k] {
+			continue
+		}
 		ti := fv.typeInvOf(d.T)
 		if ti == nil {
 			continue
@@ -274,6 +358,6 @@ func (fv *FV) checkTypeInvs(st *State, pos token.Pos) {
 		inv := fv.typeInvTerm(st, ti, d.Ref, d.T, &errs)
 		fv.oblige(st, "typeinv", typeShort(d.T), pos, inv, ti.Clause.Text)
 		fv.reportErrs(errs)
+		delete(st.dirty, k)
 	}
-	st.dirty = map[string]dirtyObj{}
 }
